@@ -6,6 +6,7 @@ import (
 	"go/constant"
 	"go/token"
 	"go/types"
+	"math"
 	"sort"
 	"strings"
 
@@ -262,6 +263,7 @@ func runC04(c *Ctx) {
 	c.r0429(pk)
 	c.r0431(pk)
 	c.r0432(pk)
+	c.r0433(pk)
 	// positions remembered while rewriting a value list (background layers) stay valid: same rule as R10.5, css only
 	c.alsoUnder(map[string]string{"R10.5": "R04.8"}, func(construct string) bool {
 		return strings.HasPrefix(construct, "css.") || strings.HasPrefix(construct, "floor/")
@@ -605,6 +607,10 @@ func runC09own(c *Ctx) {
 	c.r0930(pk)
 	// `a||b??c` is a syntax error: the level tests of the conditional rewrites are validity clauses too
 	c.alsoUnder(map[string]string{"R01.38": "R09.29"}, nil, func() { c.r0138(pk) })
+	// code minified into an attribute value is valid only if the browser decodes the attribute back to it
+	c.alsoUnder(map[string]string{"R11.9": "R09.31"}, func(construct string) bool {
+		return strings.Contains(construct, "escape") || strings.Contains(construct, "semicolon") || strings.HasPrefix(construct, "floor/")
+	}, func() { c.r119() })
 }
 
 // R09.4: `1.a` is not a member access — a property written after a number needs the integer test.
@@ -2464,4 +2470,146 @@ func (c *Ctx) r0930(pk *packages.Package) {
 		}
 	}
 	c.R.Floor(rule, "prints of a group's content without parentheses", n, 1)
+}
+
+// R04.33: the cases of a unit conversion agree on its direction and use the factors of the units.
+func (c *Ctx) r0433(pk *packages.Package) {
+	const rule = "R04.33"
+	c.R.Rule(rule, "where package css converts between the units of one dimension — a switch whose cases name at least two unit hashes of one row of ref.CSSUnitFactor (angle: deg, grad, rad, turn; time: s, ms; …) and multiply or divide a value by a constant — every constant is the factor of its unit towards the canonical unit of the row or its reciprocal, and all cases of the switch convert in the same direction (sibling agreement). `case Grad: d *= 1.1111111111111111` next to `case Turn: d *= 360.0` converts one unit from degrees and the other to degrees: hsl(100grad,100%,50%) became #26ff00 instead of #80ff00")
+	info := pk.TypesInfo
+	n := 0
+	approx := func(a, b float64) bool { return math.Abs(a-b) <= 1e-6*math.Max(math.Abs(a), math.Abs(b)) }
+	for _, fd := range load.FuncDecls(pk) {
+		if fd.Body == nil {
+			continue
+		}
+		ast.Inspect(fd.Body, func(z ast.Node) bool {
+			sw, ok := z.(*ast.SwitchStmt)
+			if !ok {
+				return true
+			}
+			type conv struct {
+				unit string
+				m    float64
+				at   ast.Node
+			}
+			var convs []conv
+			dim := ""
+			for _, st := range sw.Body.List {
+				cc, ok := st.(*ast.CaseClause)
+				if !ok {
+					continue
+				}
+				for _, e := range cc.List {
+					var unit string
+					if id, ok := ast.Unparen(e).(*ast.Ident); ok {
+						if k, isConst := info.Uses[id].(*types.Const); isConst && k.Pkg() == pk.Types {
+							unit = strings.ToLower(k.Name())
+						}
+					}
+					if s, ok := c.constString(info, e); ok && unit == "" {
+						unit = strings.ToLower(s)
+					}
+					d := ""
+					for dn, row := range ref.CSSUnitFactor {
+						if _, ok := row[unit]; ok {
+							d = dn
+						}
+					}
+					if d == "" || (dim != "" && d != dim) {
+						continue
+					}
+					dim = d
+					// the factor applied in the clause
+					for _, bs := range cc.Body {
+						as, ok := bs.(*ast.AssignStmt)
+						if !ok || len(as.Lhs) != 1 || len(as.Rhs) != 1 {
+							continue
+						}
+						var k float64
+						var has bool
+						fl := func(e ast.Expr) (float64, bool) {
+							if tv, ok := info.Types[e]; ok && tv.Value != nil {
+								f, _ := constant.Float64Val(constant.ToFloat(tv.Value))
+								return f, true
+							}
+							return 0, false
+						}
+						switch as.Tok {
+						case token.MUL_ASSIGN:
+							k, has = fl(as.Rhs[0])
+						case token.QUO_ASSIGN:
+							if v, ok := fl(as.Rhs[0]); ok && v != 0 {
+								k, has = 1/v, true
+							}
+						case token.ASSIGN:
+							if be, ok := ast.Unparen(as.Rhs[0]).(*ast.BinaryExpr); ok && nospace(str(be.X)) == nospace(str(as.Lhs[0])) {
+								if v, ok := fl(be.Y); ok && v != 0 {
+									if be.Op == token.MUL {
+										k, has = v, true
+									} else if be.Op == token.QUO {
+										k, has = 1/v, true
+									}
+								}
+							}
+						}
+						if has {
+							convs = append(convs, conv{unit, k, as})
+						}
+					}
+				}
+			}
+			if len(convs) < 2 {
+				return true
+			}
+			dirs := map[string]bool{}
+			for _, cv := range convs {
+				n++
+				f := ref.CSSUnitFactor[dim][cv.unit]
+				dir := ""
+				switch {
+				case approx(cv.m, f):
+					dir = "to " + ref.CSSCanonicalUnit[dim]
+				case approx(cv.m, 1/f):
+					dir = "from " + ref.CSSCanonicalUnit[dim]
+				}
+				if f == 1 && approx(cv.m, 1) {
+					dir = ""
+				} else if dir != "" {
+					dirs[dir] = true
+				}
+				construct := fmt.Sprintf("css.%s/%s factor of %s#%d", load.FuncName(fd), dim, cv.unit, n)
+				if dir == "" && !(f == 1 && approx(cv.m, 1)) {
+					c.R.Bad(rule, construct, c.pos(cv.at), fmt.Sprintf("%v is neither the factor of %s towards %s (%v) nor its reciprocal", cv.m, cv.unit, ref.CSSCanonicalUnit[dim], f))
+				} else {
+					c.R.OK(rule, construct, c.pos(cv.at), fmt.Sprintf("%v converts %s", cv.m, dir))
+				}
+			}
+			var ds []string
+			for d := range dirs {
+				ds = append(ds, d)
+			}
+			sort.Strings(ds)
+			c.R.Check(len(dirs) <= 1, rule, fmt.Sprintf("css.%s/%s conversion converts in one direction", load.FuncName(fd), dim), c.pos(sw), strings.Join(ds, ", "),
+				"the cases of one conversion disagree on its direction ("+strings.Join(ds, " and ")+"): one of the factors is the reciprocal of what it should be — `hsl(100grad,100%,50%)` came out as #26ff00 instead of #80ff00")
+			return true
+		})
+	}
+	if n == 0 {
+		c.R.OK(rule, "css/no unit conversion by constants", "-", "no switch over the units of one dimension multiplies by constants (the multiplier table of minifyDimension is commented out)")
+	}
+}
+
+// constString: the value of a constant string expression, also through a []byte("…") conversion.
+func (c *Ctx) constString(info *types.Info, e ast.Expr) (string, bool) {
+	e = ast.Unparen(e)
+	if tv, ok := info.Types[e]; ok && tv.Value != nil && tv.Value.Kind() == constant.String {
+		return constant.StringVal(tv.Value), true
+	}
+	if ce, ok := e.(*ast.CallExpr); ok && len(ce.Args) == 1 {
+		if tv, ok := info.Types[ce.Args[0]]; ok && tv.Value != nil && tv.Value.Kind() == constant.String {
+			return constant.StringVal(tv.Value), true
+		}
+	}
+	return "", false
 }
